@@ -1120,6 +1120,53 @@ func init() {
 	}}
 	registerRows("C04", chainID)
 	registerRows("C07", chainID)
+	// the chain index element of an older ancestor, relabelled with the proof
+	// height: presented before the block at the proof height exists, and after
+	chainHeight := probeRow{"M1-v2-chain-index-relabelled", func(w *World, n *Node) {
+		sc := n.fork()
+		if !sc.v2ok() {
+			return
+		}
+		c := sc.pickLive(true, func(c *Contract) bool {
+			fc := sc.store.V2FC[c.id].V2FileContract
+			_, known := c.dataFor(fc.FileMerkleRoot, fc.Filesize)
+			return known && fc.Filesize > 0 && fc.ProofHeight+1 <= sc.child()+12 && fc.ProofHeight >= sc.child()
+		})
+		if c == nil {
+			return
+		}
+		fc := sc.store.V2FC[c.id].V2FileContract
+		data, _ := c.dataFor(fc.FileMerkleRoot, fc.Filesize)
+		early := w.tape.Choose(2) == 0
+		target := fc.ProofHeight + 1
+		if early {
+			target = fc.ProofHeight // the child is the block at the proof height itself: it is no ancestor yet
+		}
+		if !sc.advanceTo(max(target, sc.child())) || sc.child() != target {
+			return
+		}
+		back := uint64(1 + w.tape.Choose(4))
+		if back >= fc.ProofHeight {
+			return
+		}
+		if fc.ProofHeight-back >= uint64(len(sc.store.CI)) {
+			return
+		}
+		old := sc.store.CI[fc.ProofHeight-back]
+		fake := old.Copy()
+		fake.ChainIndex.Height = fc.ProofHeight
+		sp := w.storageProofV2(sc.s, fake, c.id, fc, data) // an honest proof of the leaf the older block's ID selects
+		verr, okv := sc.offer(nil, w.v2Resolve(sc, c.id, sp), offerOpt{})
+		when := "after the proof height"
+		if early {
+			when = "in the block at the proof height, whose own index no proof can name yet"
+		}
+		w.expect(w.propAmong("C04", "C07", "C08"), "M1-v2-chain-index-relabelled", verr, okv, false, fmt.Sprintf("storage proof of v2 contract %v (proof height %d) %s, whose proof index is the genuine chain index element of height %d with its height field set to the proof height", c.id, fc.ProofHeight, when, fc.ProofHeight-back))
+		w.stats.Inc("probe.M1-v2-chain-index-relabelled")
+	}}
+	registerRows("C04", chainHeight)
+	registerRows("C07", chainHeight)
+	registerRows("C08", chainHeight)
 	registerRows("C04", probeRow{"M2-v2-invented-contract", func(w *World, n *Node) {
 		sc := n.fork()
 		if !sc.v2ok() {
